@@ -78,10 +78,10 @@ pub fn sequence_or_set_template(comments: &str, name: &str, members: &str) -> St
     )
 }
 
-pub fn sequence_or_set_of_template(comments: &str, name: &str, member_type: &str) -> String {
+pub fn sequence_or_set_of_template(comments: &str, name: &str, array_type: &str) -> String {
     format!(
         r#"{comments}
-        export type {name} = {member_type}[];"#
+        export type {name} = {array_type};"#
     )
 }
 
